@@ -701,7 +701,9 @@ SRCB_RESERVED = set("split split1 join contains_char fmt_d chars str_of py_index
                     "py_sorted_asc py_ins_asc py_str_nonempty py_str_head_is py_str_times py_str_list py_try "
                     "py_ipaddress_of_str py_iprange_of_strs py_addr_str py_net_of_addr py_set_add map existsb forallb "
                     "length ascii code chr len strip lower append py_int".split())
-PURE_METHODS = PURE_METHODS + ("split", "join")      # s.split(c) / sep.join(l): new values, s and sep unchanged
+SRCB_PURE_METHODS = ("split", "join")      # s.split(c) / sep.join(l): new values, s and sep unchanged -- while a FnB unit is being
+# translated only (PURE_EXTRA, pushed by Translator.get): the other units' generated loops / joins carry such a receiver, and the
+# proofs refer to that shape
 # the address parsers a unit reaches with TEXT arguments are not translated: (class, argument kinds) -> symbol.  For nmap.py
 # IPAddress(text) and the IPv6 half of IPNetwork(text) are the Section variables of Model/Nmap.v (platform functions, property C01):
 # the generated file declares the same two variables (UNIT_PREAMBLE / UNIT_POSTAMBLE) and its definitions take them as parameters
@@ -807,6 +809,7 @@ def in_order(found):
 # (Translator.get pushes the flag); the SRCE and SRCC units count it through their own wrappers of assigned_names (appended after the
 # other names), and the order of the names is the parameter order of the generated loop Fixpoints that their proofs refer to
 SUBSCRIPT_STORE_IN_ORDER = [False]
+PURE_EXTRA = [()]      # further method names that do not mutate their receiver, for the unit being translated (SRCB: FnB units)
 
 
 def assigned_names(stmts):
@@ -822,7 +825,7 @@ def assigned_names(stmts):
                   and isinstance(n.value, ast.Name)):
                 found.append((n.lineno, n.col_offset, n.value.id))             # (SRCF units only) x[k] = e rebinds the local list x
             elif (isinstance(n, ast.Call) and isinstance(n.func, ast.Attribute) and isinstance(n.func.value, ast.Name)
-                  and n.func.attr not in PURE_METHODS):
+                  and n.func.attr not in PURE_METHODS and n.func.attr not in PURE_EXTRA[-1]):
                 found.append((n.lineno, n.col_offset, n.func.value.id))        # any other method call on a name may mutate it
             elif isinstance(n, ast.Call) and dotted(n.func) == "_iter_next" and n.args and isinstance(n.args[0], ast.Name):
                 found.append((n.lineno, n.col_offset, n.args[0].id))
@@ -5331,6 +5334,7 @@ class Translator:
             self.active.append(key)
             CURFILE.append(self.fn)
             SUBSCRIPT_STORE_IN_ORDER.append(fn_class(self.out).__name__ == "FnF")
+            PURE_EXTRA.append(SRCB_PURE_METHODS if fn_class(self.out).__name__ == "FnB" else ())
             try:
                 d = fn_class(self.out)(self, recv, name, spec[0][2])
                 d.body_text = d.text()          # also resolves every list type: fail here, scoped to this definition
@@ -5344,6 +5348,7 @@ class Translator:
                 self.active.pop()
                 CURFILE.pop()
                 SUBSCRIPT_STORE_IN_ORDER.pop()
+                PURE_EXTRA.pop()
             self.done[key] = d
             self.order.append(key)
         return self.done[key]
